@@ -1,0 +1,8 @@
+//go:build !verif
+
+// Package verifhook provides yield points for the verification harness
+// under /verif. In a normal build At is an empty function.
+package verifhook
+
+// At marks a yield point. It does nothing unless built with -tags verif.
+func At(point string) {}
